@@ -207,8 +207,9 @@ class Package:
 
 
 class Alias:
-    def __init__(self, pkg, m, q, fnode, roots):
+    def __init__(self, pkg, m, q, fnode, roots, state_mode=False):
         self.pkg, self.m, self.q, self.fnode = pkg, m, q, fnode
+        self.state_mode = state_mode
         self.depth = dict(roots)
         self.roots = set(roots)
         self._solve()
@@ -252,6 +253,9 @@ class Alias:
 
     def call_depth(self, e):
         f = e.func
+        if isinstance(f, ast.Name) and f.id == "type" and len(e.args) == 1 and not e.keywords:
+            # the class of a shared object is shared by every instance of it (and outlives them): type(self).counter += 1
+            return 0 if self.d(e.args[0]) < INF else INF
         args = list(e.args) + [k.value for k in e.keywords]
         dargs = [self.d(a) for a in args]
         dmin = min(dargs or [INF])
@@ -261,7 +265,8 @@ class Alias:
         if res is not None:
             m2, q2, f2, is_method = res
             ps = params_of(f2)
-            out = INF
+            # a helper that hands out (a part of) process-persistent module state: Package.global_ret, filled by the state analysis
+            out = self.pkg.global_ret.get((m2.rel, q2), INF) if self.state_mode else INF
             if is_method and ps:
                 dself = self.d(f.value)
                 if dself < INF:
@@ -407,11 +412,51 @@ class Alias:
             e = e.value
         return isinstance(e, ast.Name) and e.id == "self"
 
+    def _must_names(self):
+        """Local names that are bound exactly once in the function, by a value-preserving step from `self`: `x = self.a.b`,
+        `for x in self.a` / `for i, x in enumerate(self.a)` (also through another such name).  Wherever such a name is used it
+        denotes an object reachable from self, so a mutation through it is as definite as one spelled with `self`."""
+        stores = {}
+        for n in own_nodes(self.fnode):
+            if isinstance(n, ast.Name) and isinstance(n.ctx, ast.Store):
+                stores[n.id] = stores.get(n.id, 0) + 1
+        for p_ in params_of(self.fnode):
+            stores[p_] = stores.get(p_, 0) + 1
+        must = set()
+
+        def chain(e):
+            while isinstance(e, (ast.Attribute, ast.Subscript)):
+                e = e.value
+            return isinstance(e, ast.Name) and (e.id == "self" or e.id in must)
+
+        for _ in range(3):
+            for n in own_nodes(self.fnode):
+                if isinstance(n, ast.Assign) and len(n.targets) == 1 and isinstance(n.targets[0], ast.Name) and isinstance(n.value, (ast.Attribute, ast.Subscript, ast.Name)):
+                    if stores.get(n.targets[0].id) == 1 and chain(n.value):
+                        must.add(n.targets[0].id)
+                elif isinstance(n, ast.For) and not n.orelse:
+                    it, tg = n.iter, n.target
+                    if isinstance(it, ast.Call) and isinstance(it.func, ast.Name) and it.func.id == "enumerate" and it.args and isinstance(tg, ast.Tuple) \
+                            and len(tg.elts) == 2:
+                        it, tg = it.args[0], tg.elts[1]
+                    if isinstance(tg, ast.Name) and stores.get(tg.id) == 1 and isinstance(it, (ast.Attribute, ast.Subscript, ast.Name)) and chain(it):
+                        must.add(tg.id)
+        return must
+
     def sites(self):
         """[(node, text, definite)]"""
         out = []
+        try:
+            must = self._must_names()
+        except Exception:  # noqa -- definiteness is an optimisation; without it the replayer decides
+            must = set()
+        def literal(e):
+            while isinstance(e, (ast.Attribute, ast.Subscript)) or \
+                    (isinstance(e, ast.Call) and isinstance(e.func, ast.Name) and e.func.id == "type" and len(e.args) == 1):
+                e = e.args[0] if isinstance(e, ast.Call) else e.value
+            return isinstance(e, ast.Name) and (e.id == "self" or e.id in must)
         def site(n, base, text):
-            out.append((n, text, self._literal_self(base)))
+            out.append((n, text, literal(base)))
         for n in own_nodes(self.fnode):
             targets = []
             if isinstance(n, ast.Assign):
@@ -462,8 +507,8 @@ class Alias:
 
 # ------------------------------------------------------------------ the caller's input buffer --
 READ_ONLY = {"seek", "tell", "read", "getvalue", "readline", "readlines", "read1", "readinto", "seekable", "readable", "closed", "getbuffer",
-             "writable", "isatty", "peek", "__enter__", "__exit__"}
-WRITERS = {"write", "writelines", "truncate", "close", "detach", "__setitem__"}
+             "writable", "isatty", "peek", "__enter__"}
+WRITERS = {"write", "writelines", "truncate", "close", "detach", "__setitem__", "__exit__"}
 INPUT_PARAM = "file_like"
 
 
@@ -519,6 +564,13 @@ def aliases_of(fnode, names):
                 tgt, val = n.target.id, n.value
             elif isinstance(n, ast.NamedExpr):
                 tgt, val = n.target.id, n.value
+            elif isinstance(n, (ast.With, ast.AsyncWith)):
+                # `with buffer as f`: a stream's __enter__ returns the stream itself
+                for it in n.items:
+                    if isinstance(it.optional_vars, ast.Name) and isinstance(it.context_expr, ast.Name) and it.context_expr.id in names \
+                            and it.optional_vars.id not in names:
+                        names.add(it.optional_vars.id)
+                        grew = True
             if tgt is None or tgt in names:
                 continue
             vals = [val]
@@ -546,6 +598,16 @@ def input_buffer_sites(fnode, names):
             for t in (n.targets if isinstance(n, (ast.Assign, ast.Delete)) else [n.target]):
                 if isinstance(t, (ast.Attribute, ast.Subscript)) and isinstance(t.value, ast.Name) and t.value.id in names:
                     out.append((n.lineno, f"store into {t.value.id}", True))
+        if isinstance(n, (ast.With, ast.AsyncWith)):
+            # the buffer used as a context manager (directly or through contextlib.closing): leaving the block closes it, the caller
+            # can no longer read what it passed in
+            for it in n.items:
+                ce = it.context_expr
+                if isinstance(ce, ast.Name) and ce.id in names:
+                    out.append((n.lineno, f"with {ce.id}: closes the caller's buffer on exit", True))
+                elif isinstance(ce, ast.Call) and dotted(ce.func).split(".")[-1] == "closing" and ce.args and isinstance(ce.args[0], ast.Name) \
+                        and ce.args[0].id in names:
+                    out.append((n.lineno, f"with closing({ce.args[0].id}): closes the caller's buffer on exit", True))
         if isinstance(n, ast.Call) and dotted(n.func).split(".")[-1] in ("ZipFile", "TarFile", "open") and n.args \
                 and isinstance(n.args[0], ast.Name) and n.args[0].id in names:
             mode = n.args[1] if len(n.args) > 1 else next((k.value for k in n.keywords if k.arg == "mode"), None)
